@@ -817,6 +817,13 @@ func (config *Config) resolve() (changedFields set.Set[string], err error) {
 			}
 			metadata := param.GetMetadata()
 			name := metadata.Name
+			if preferred := preferredSpelling(config.sourceToRawConfig[source], name); preferred != rawName {
+				// Several spellings of one parameter in one source: exactly one of them
+				// decides, whatever order the map is iterated in.
+				log.Warningf("Ignoring %v=%q from %v; the same source also sets %v",
+					rawName, rawValue, source, preferred)
+				continue valueLoop
+			}
 			if metadata.Local && !source.Local() {
 				log.Warningf("Ignoring local-only configuration %v=%q from %v",
 					name, rawValue, source)
@@ -904,6 +911,23 @@ func (config *Config) resolve() (changedFields set.Set[string], err error) {
 
 	config.rawValues = newRawValues
 	return
+}
+
+// preferredSpelling returns the key of rawConfig that decides the parameter with canonical name
+// "name" when the map holds several keys that differ only by case: the canonical spelling if
+// present, otherwise the lexically smallest one.
+func preferredSpelling(rawConfig map[string]string, name string) string {
+	if _, ok := rawConfig[name]; ok {
+		return name
+	}
+	lowerCaseName := strings.ToLower(name)
+	best := ""
+	for k := range rawConfig {
+		if strings.ToLower(k) == lowerCaseName && (best == "" || k < best) {
+			best = k
+		}
+	}
+	return best
 }
 
 // SafeParamsEqual compares two values drawn from the types of our config fields.  For the most part
